@@ -246,7 +246,9 @@ func (a *Affiliation) computeTriggersForTypes(lhsType types.Type, rhsType types.
 	if !ok {
 		return nil
 	}
-	rhsObj, ok := typeshelper.UnwrapPtr(rhsType).(*types.Named)
+	// The implementation may be named through an alias (e.g., `type T = S`, `type P = *S`), so we
+	// must look through aliases both around and below the pointer.
+	rhsObj, ok := types.Unalias(typeshelper.UnwrapPtr(types.Unalias(rhsType))).(*types.Named)
 	if !ok {
 		return nil
 	}
